@@ -36,7 +36,7 @@ static int cb(void *user, void *work)
 		sched_yield();
 	it->processed++;
 	c->busy = 0;
-	return it->id == fail_item ? -7 : 0;
+	return it->id == fail_item ? (it->id % 2 ? 9 : -7) : 0;
 }
 
 static uint64_t rng;
